@@ -31,7 +31,8 @@ def gen_case(rng, multi=None):
     for _ in range(n):
         g = rng.randint(0, 40) + (1000 if rng.random() < 0.3 else 0)
         evaluated = rng.random() < 0.45
-        pop.append([g, (rng.randint(0, 99) if evaluated else None), evaluated])
+        # a stored fitness of -7 stands for NaN (a failed evaluation that was nevertheless recorded): marked is marked
+        pop.append([g, ((rng.randint(0, 99) if rng.random() < 0.8 else -7) if evaluated else None), evaluated])
     return dict(multi=(rng.random() < 0.35) if multi is None else multi, red=rng.random() < 0.3,
                 c0=rng.randint(0, 50), pop=pop, procs=rng.choice([1, 2, 3]), wrapped=True)
 
@@ -53,7 +54,7 @@ def run_phase_case(c):
     for (g, f, s) in c["pop"]:
         ind = ToyChrom([g])
         if s:
-            ind.fitness = float(f)
+            ind.fitness = float("nan") if f == -7 else float(f)
         pop.append(ind)
     before = list(pop)
     REAL_CALLS.value = 0
@@ -66,7 +67,7 @@ def run_phase_case(c):
         out[1] = real
     for j, ind in enumerate(pop):
         same = ind is before[j]
-        fit = -1 if ind.fitness is None else int(ind.fitness)
+        fit = -1 if ind.fitness is None else (-7 if ind.fitness != ind.fitness else int(ind.fitness))
         out += [0 if same else 1, int(ind.values[0]), fit, 1 if ind.fit_set else 0]
     # ---- oracle
     if ev.eval_count - c["c0"] != real:
@@ -82,7 +83,8 @@ def run_phase_case(c):
             if not ind.fit_set or ind.fitness != float(g2) or ind.values[0] != g2:
                 viol.append("slot %d was due but holds genome %r fitness %r flag %r" % (j, ind.values[0], ind.fitness, ind.fit_set))
         else:
-            if ind is not before[j] or ind.fitness != float(f) or ind.values[0] != g:
+            kept = (ind.fitness != ind.fitness) if f == -7 else (ind.fitness == float(f))
+            if ind is not before[j] or not kept or ind.values[0] != g:
                 viol.append("slot %d was already evaluated but was touched" % j)
         if not c["multi"] and ind is not before[j]:
             viol.append("serial evaluation replaced the object in slot %d" % j)
